@@ -376,8 +376,12 @@ static void idl_eval(const struct icfg *c, const struct itx *tx, int ntx, const 
                         int gap = dlog[i] != dlog[i - 1] + 1;
                         if (gap && !flagged)
                                 VIOL("idl continuity gap not flagged with VBI_IDL_DATA_LOST", "%s %s [%s]: delivery of user packet %d follows delivery of %d, flags=%#x", ctx, desc, seq, dlog[i], dlog[i - 1], dflags[i]);
-                        else if (!gap && flagged)
-                                VIOL("idl VBI_IDL_DATA_LOST without a continuity gap", "%s %s [%s]: delivery of user packet %d directly follows %d, flags=%#x", ctx, desc, seq, dlog[i], dlog[i - 1], dflags[i]);
+                        else if (!gap && flagged) {
+                                /* cause class from the sender side alone: the recorded finding needs a repeated transmission (RI) in the stream */
+                                int any_rep = 0; for (int t = 0; t < ntx; t++) if (tx[t].rep > 0) any_rep = 1;
+                                VIOL(any_rep ? "idl VBI_IDL_DATA_LOST without a continuity gap" : "idl VBI_IDL_DATA_LOST without a continuity gap [no repeated transmission in the stream]",
+                                     "%s %s [%s]: delivery of user packet %d directly follows %d, flags=%#x", ctx, desc, seq, dlog[i], dlog[i - 1], dflags[i]);
+                        }
                 }
                 if (ndel > 0) mc_outcome("idl flags: DATA_LOST %s, bits outside DATA_LOST|DEPENDENT %s",
                         (dflags[ndel - 1] & VBI_IDL_DATA_LOST) ? "set" : "clear",
